@@ -114,7 +114,10 @@ def finite_difference_obligation(vtypes, m=2, second_state=True, override=None, 
             for k, v in enumerate(verts):
                 q = sym_pose(vtypes[k], "y%d" % k, unit=unit)
                 ga(v, "pose").data[:] = list(q.data)
-            verify("second evaluation after the poses changed: ")
+                # ... and the vertices are marked fixed meanwhile (as optimize(fix_first_pose=True) leaves the first one): the Jacobian
+                # of an edge is the derivative of its error, whether or not the optimizer may move the vertex
+                sa(v, "fixed", True if k % 2 == 0 else Poly.const(1))
+            verify("second evaluation after the poses changed and the vertices were marked fixed: ")
         if len(eps_seen) != 1:
             raise ObFail("different step sizes are used: %s" % sorted(map(float, eps_seen)))
         eps = eps_seen.pop()
